@@ -25,6 +25,8 @@ def summary_for(case, built):
             flag = bool(np.any(np.linalg.det(recv._values_) == 0.))
     if name == 'rot90':
         flag = True
+    if name == 'unitsMulNone':
+        flag = bool(case.get('named'))
     if name == 'arith':
         # as_readonly() froze the receiver and its derivatives: every mask ARRAY among them is then non-writeable
         flag = bool(recv._readonly_)
@@ -171,8 +173,9 @@ def request(case):
         return None
     name, flag, keys = sm
     H = heap_of(built)
+    args = H['args'][1:] if case.get('how') in ('static', 'class') else H['args']     # no receiver
     return ['c07', 'call', name, flag, keys, NEXT, ['objs'] + H['objs'], ['arrs'] + H['arrs'],
-            ['args'] + H['args'], ['srcs'] + H['src_ids'], ['sched'] + sched_for(case, built, name)]
+            ['args'] + args, ['srcs'] + H['src_ids'], ['sched'] + sched_for(case, built, name)]
 
 
 def _adesc(a, H):
@@ -207,7 +210,11 @@ def observe_call(case, r):
                     d = x._derivs_[k]
                     res.append([KEYCODE[k], _adesc(d._values_, H), _adesc(d._mask_, H), bool(d._readonly_)])
         elif isinstance(x, Units):
-            res = 'new-units'
+            cell = None
+            for o, a in zip(built, H['args']):
+                if o is x:
+                    cell = a[1]
+            res = ['operand-units', cell] if cell is not None else 'new-units'
         else:
             res = 'py'
     # what changed on the operands (flags after the call are read off the live objects: H was built after it, so
@@ -253,7 +260,8 @@ def _obj_at(built, root, path):
     return o
 
 
-MUTMAP = {'setitem_all': 'write', 'setitem_0': 'write', 'setitem_bool': 'write', 'iadd': 'write', 'isub': 'write',
+MUTMAP = {'setitem_all': 'rebind',     # t[...] = v rebinds _values_ to a copy of v (indexer.py:133-135)
+           'setitem_0': 'write', 'setitem_bool': 'write', 'iadd': 'write', 'isub': 'write',
           'imul': 'write', 'itruediv': 'write', 'ifloordiv': 'write', 'imod': 'write', 'ior': 'write', 'iand': 'write',
           'ixor': 'write', 'values_write': 'write', 'vals_write': 'write', 'setitem_masked': 'writeMask',
           'mask_write': 'writeMask', 'set_units': 'setUnits', 'as_readonly': 'freeze'}
@@ -271,10 +279,20 @@ def seq_request(case):
         k = m['m']
         if k in MUTMAP:
             muts.append(MUTMAP[k])
-        elif k in ('deriv_setitem', 'deriv_imul', 'deriv_values_write'):
+        elif k == 'deriv_setitem':
+            muts.append(['drebind', KEYCODE[m.get('key', 't')]])
+        elif k in ('deriv_setitem_0', 'deriv_imul', 'deriv_values_write'):
             muts.append(['dwrite', KEYCODE[m.get('key', 't')]])
         elif k == 'insert_deriv':
             muts.append(['insert', KEYCODE[m.get('key', 'n')]])
+        elif k == 'insert_alias':
+            # operand = the other object; mutating the source (side == 'src') the other is the copy, which does not
+            # exist in the request heap: only the direction "mutate the copy with an operand from the source" is tied
+            if case['side'] != 'derived':
+                return None
+            root = H['oid'][id(a)]
+            d = root if m['what'] == 'other' else H['oid'][id(a._derivs_[m['what']])]
+            muts.append(['alias', KEYCODE[m.get('key', 'n')], d])
         elif k == 'delete_deriv':
             muts.append(['delete', KEYCODE[m.get('key', 't')]])
         elif k == 'delete_derivs':
